@@ -100,7 +100,7 @@ impl AgentSim {
         if scale {
             ctx.st.inc("probe.scale_run");
         }
-        let huge = scale && ctx.ch.rare(1, 8);
+        let huge = scale && ctx.ch.rare(1, if ctx.cfg.prop == "C20" || ctx.cfg.prop == "C15" { 3 } else { 8 });
         let npool = if scale { ctx.ch.range(12, 48) } else { ctx.ch.range(3, 6) } as usize;
         let mut pool = gen_addr_pool(ctx.ch, npool);
         if huge {
@@ -113,7 +113,15 @@ impl AgentSim {
         }
         // knob: an application whose requests are big (2-5 KB), in one run of twenty
         let big_requests = ctx.ch.rare(1, 20);
-        let local = SocketAddr::new(std::net::IpAddr::V4(std::net::Ipv4Addr::new(10, 0, 0, 1)), 40000);
+        // knob (one run in six): an agent bound to a wildcard address (either family; destinations of
+        // both families are in every pool), an IPv6 address, or loopback — C18: "from the agent's
+        // local address", whatever it is
+        let local = if ctx.ch.rare(1, 6) {
+            ctx.st.inc("probe.unusual_local_address");
+            *ctx.ch.pick(&["0.0.0.0:40000".parse::<SocketAddr>().unwrap(), "[::]:40000".parse().unwrap(), "[2001:db8::1]:40000".parse().unwrap(), "127.0.0.1:1".parse().unwrap(), "[::ffff:10.0.0.1]:40000".parse().unwrap()])
+        } else {
+            SocketAddr::new(std::net::IpAddr::V4(std::net::Ipv4Addr::new(10, 0, 0, 1)), 40000)
+        };
         let local_creds = gen_creds(ctx.ch);
         let peer_creds = gen_other_creds(ctx.ch, &local_creds);
         let mut other_creds = gen_other_creds(ctx.ch, &peer_creds);
@@ -302,8 +310,22 @@ impl AgentSim {
             }
             bits.push(if r == Reply::Peer(true) { '1' } else { '0' });
             let chk = self.model.check_query_peer(addr, &r);
-            self.history.push((c, r));
+            self.history.push((c, r.clone()));
             if let Err(v) = chk {
+                if self.prop != "C15" && v.property == "C15" {
+                    // another property is under check: the model follows the agent (so that this
+                    // property's own clauses — e.g. C20's replays at the end of the run — stay observable)
+                    ctx.st.inc("foreign.C15.validated_set_followed");
+                    match r {
+                        Reply::Peer(true) => {
+                            self.model.validated.insert(addr);
+                        }
+                        _ => {
+                            self.model.validated.remove(&addr);
+                        }
+                    }
+                    continue;
+                }
                 ev!(ctx, "  queries {bits} !! {}", v.message);
                 return Err(v);
             }
